@@ -473,7 +473,7 @@ func TestVerifC17Mux(t *testing.T) {
 		}
 	}
 
-	// directed: a full-size packet on a channel whose id needs a two-byte varint (finding F27:
+	// directed: a full-size packet on a channel whose id needs a two-byte varint (finding F34:
 	// maxPacketMsgSize used to be computed for channel id 0x01)
 	{
 		id := cs.NextID()
